@@ -494,7 +494,7 @@ class Abstraction(object):
 
     def outcomes(self, st, b, a, eng, trig, was_dropped):
         """attempts that failed (with which error) / joins that handed over in this step, as the engine shows them"""
-        failed, succeeded = [], []
+        failed, succeeded, complete = [], [], []
         chain = set()
         cur = trig[0] if trig is not None else None
         while cur is not None:
@@ -513,10 +513,22 @@ class Abstraction(object):
                 # (which marks the attempts of its chain)
                 if not (was_dropped and eid in chain):
                     failed.append([self.ids[eid], "tt"])
-            if ra is not None and ra.get("terminated") is None and all(is_data(x) for x in ra["results"]) and \
-                    (rb is None or not all(is_data(x) for x in rb["results"])) and \
-                    any(t.endswith("StateExited") and n == inf["name"] for t, n, _ in st["hist"]):
-                succeeded.append(self.ids[eid])
+            if ra is not None and all(is_data(x) for x in ra["results"]) and \
+                    (rb is None or not all(is_data(x) for x in rb["results"])):
+                newly_terminated = ra.get("terminated") is not None and (rb is None or rb.get("terminated") is None)
+                if not newly_terminated:
+                    complete.append((eid, ra.get("terminated") is not None))
+        # the last result arrived and the state was left (a `...StateExited` of its name): its join handed over.  Attempts
+        # that are not terminated account for those events first; a *terminated* attempt is reported only for an event no
+        # live attempt of that name accounts for (a terminated attempt must not hand over: that is for the model to say)
+        for name in sorted({self.info[eid]["name"] for eid, _ in complete}, key=str):
+            # (the transition a Catcher makes is logged as `...StateFailed` + `...StateExited`: not a hand-over)
+            h = st["hist"]
+            k = len([1 for j, (t, n, _) in enumerate(h) if t.endswith("StateExited") and n == name
+                     and not (j > 0 and h[j - 1][0] == t[:-len("Exited")] + "Failed")])
+            cands = [c for c in complete if self.info[c[0]]["name"] == name]
+            cands.sort(key=lambda c: (c[1], self.ids[c[0]]))
+            succeeded += [self.ids[eid] for eid, _ in cands[:k]]
         return sorted(failed, key=str), sorted(succeeded)
 
     def state_view(self, a):
